@@ -301,15 +301,21 @@ class AsyncDatagramServer(_transports.AsyncBaseTransport, Generic[_T_Request, _T
         # To avoid that, we always use a new context. The performance cost is negligible.
         # See this functional test for a real situation:
         # test____serve_forever____too_many_datagrams_while_request_handle_is_performed
-        default_context.copy().run(
-            task_group.start_soon,
-            self.__client_coroutine,
-            datagram_received_cb,
-            client_ctx,
-            client_data,
-            task_group,
-            default_context,
-        )
+        try:
+            default_context.copy().run(
+                task_group.start_soon,
+                self.__client_coroutine,
+                datagram_received_cb,
+                client_ctx,
+                client_data,
+                task_group,
+                default_context,
+            )
+        except RuntimeError:
+            # The task group is shutting down (the server is being stopped): the datagrams left in the queue will not be handled.
+            # This error must not replace the one (e.g. the cancellation) which is ending the current task.
+            client_data.mark_running()
+            client_data.mark_done()
 
     @staticmethod
     def __parse_datagram(
